@@ -50,7 +50,10 @@ class _TransactionBase:
                 table.remove_object_no_lock(transaction_item.old)
             else:
                 table = self._mdib.context_states if transaction_item.new.is_context_state else self._mdib.states
-            table.add_object_no_lock(transaction_item.new)
+            if transaction_item.new is None:
+                continue  # a deleted (context) state: nothing to add, and it cannot be reported in a notification
+            # the mdib keeps its own copy: the object that was handed out to the user stays private after the commit
+            table.add_object_no_lock(transaction_item.new.mk_copy(copy_node=False))
             updates_list.append(transaction_item.new.mk_copy(copy_node=False))
         return updates_list
 
@@ -333,11 +336,12 @@ class DescriptorTransaction(_TransactionBase):
                         self._increment_parent_descriptor_version(proc, orig_descriptor)
                 else:
                     # this is an update operation
-                    proc.descr_updated.append(new_descriptor)
+                    proc.descr_updated.append(new_descriptor.mk_copy())
                     self._logger.debug(  # noqa: PLE1205
                         'transaction_manager: update descriptor Handle={}, DescriptorVersion={}',
                         new_descriptor.Handle, new_descriptor.DescriptorVersion)
-                    orig_descriptor.update_from_other_container(new_descriptor)
+                    # update from a copy: mdib, transaction result and the object handed out must not share data
+                    orig_descriptor.update_from_other_container(new_descriptor.mk_copy())
                     self._update_corresponding_state(orig_descriptor)
                     self._mdib.descriptions.update_object_no_lock(orig_descriptor)
             for updates_dict, dest_list in ((self.alert_state_updates, proc.alert_updates),
@@ -705,6 +709,11 @@ class ContextStateTransaction(_TransactionBase):
         if not state_container.is_context_state:
             # prevent this for simplicity reasons
             raise ApiUsageError('Transaction only handles context states!')
+        if state_container.Handle is not None and (
+                state_container.Handle in self._state_updates
+                or self._mdib.context_states.handle.get_one(state_container.Handle, allow_none=True) is not None):
+            msg = f'ContextState with handle={state_container.Handle} already exists'
+            raise ValueError(msg)
 
         if state_container.descriptor_container is None:
             descr = self._mdib.descriptions.handle.get_one(state_container.DescriptorHandle)
